@@ -205,6 +205,116 @@ def clone_prec_concrete(p, m):
         mp.prec = old
 
 
+# ------------------------------------------------------------------------------ values crossing between contexts
+def _drive_cross(b, x, how, n):
+    """hand a number object of another context to context b (at precision n); return what b made of it"""
+    b.prec = n
+    if how == 'convert':
+        y = b.convert(x)
+    elif how == 'mpf':
+        y = b.mpf(x)
+    elif how == 'mpc':
+        y = b.mpc(x)
+    elif how == 'mpmathify':
+        y = b.mpmathify(x)
+    else:
+        y = b.convert(x)
+    return y, _observe(b)
+
+
+_drive_cross._pysym_interpret = True
+
+
+def _cross_parts(v, st, kind):
+    if kind == 'mpc':
+        h = st.heap.get((id(v), '_mpc_'))
+        t = h[1] if h is not None else v._mpc_
+        return list(t)
+    h = st.heap.get((id(v), '_mpf_'))
+    return [h[1] if h is not None else v._mpf_]
+
+
+def cross_value(p):
+    """a number created by context a (an mpf with arbitrary sign/mantissa/exponent, or an mpc with such parts) handed to
+    context b's conversion entry points while b sits at a symbolic precision n: the result is an object of b's OWN number
+    class (so that later arithmetic on it uses b's precision and rounding, not a's) carrying the same raw value, and b's
+    configuration still shows n."""
+    a_name, b_name, how, kind = p['a'], p['b'], p['how'], p.get('kind', 'mpf')
+    cs = contexts()
+    a, b = cs[a_name], cs[b_name]
+    PD, DP = ufs()
+    ob = Ob(W, models=make_models(PD, DP), timeout_s=p.get('_t', 30))
+    n = ob.int('n', 1, PMAX)
+    bc = p.get('bc', 60)
+    xr = ob.mpf('x', bc, E=1000)
+    if kind == 'mpc':
+        xi = ob.mpf('y', p.get('bc2', 7), E=1000)
+        x = a.make_mpc((xr, xi))
+        src = [xr, xi]
+    else:
+        x = a.make_mpf(xr)
+        src = [xr]
+    import checks.fam_ctx as me
+    outs = ob.run(me._drive_cross, [b, x, how, n])
+    want_cls = b.mpc if (kind == 'mpc' or how == 'mpc') else b.mpf
+
+    def good(val, st):
+        y, seen = val
+        if type(y) is not want_cls:
+            return False
+        parts = _cross_parts(y, st, 'mpc' if want_cls is b.mpc else 'mpf')
+        gs = [zt(seen[0]) == zt(n), zt(seen[2]) == zt(n)]
+        for got, want in zip(parts, src):
+            if not isinstance(got, tuple) or len(got) != 4:
+                return False
+            same = z3.And([zt(got[i]) == zt(want[i]) for i in range(4)])
+            if how in ('mpf', 'mpc'):
+                # the constructors round to b's precision (C10/C02 decide how); here: b's precision is the one that was used --
+                # no more than n bits, and unchanged whenever the value already fits n bits
+                gs.append(z3.ULE(zt(got[3]), zt(n)))
+                gs.append(z3.Implies(z3.ULE(zt(want[3]), zt(n)), same))
+            else:
+                gs.append(same)
+        return [z3.And(gs)]
+    return finish(ob, ob.prove(outs, good))
+
+
+def cross_value_concrete(p, m):
+    from checks.fam_arith import mk_tuple
+    cs = contexts()
+    a, b = cs[p['a']], cs[p['b']]
+    how, kind = p['how'], p.get('kind', 'mpf')
+    n = m.get('n', 53)
+    xr = mk_tuple(m, 'x', p.get('bc', 60))
+    saved = {k: c.prec for k, c in cs.items()}
+    try:
+        if kind == 'mpc':
+            xi = mk_tuple(m, 'y', p.get('bc2', 7))
+            x = a.make_mpc((xr, xi))
+            src = (xr, xi)
+        else:
+            x = a.make_mpf(xr)
+            src = xr
+        b.prec = n
+        y = getattr(b, how)(x)
+        want_cls = b.mpc if (kind == 'mpc' or how == 'mpc') else b.mpf
+        if want_cls is b.mpc:
+            got = y._mpc_ if hasattr(y, '_mpc_') else None
+            if kind != 'mpc':
+                src = (xr, (0, 0, 0, 0))
+        else:
+            got = getattr(y, '_mpf_', None)
+        if how in ('mpf', 'mpc'):
+            from mpmath.libmp import mpf_pos
+            src = tuple(mpf_pos(t, n, 'n') for t in src) if want_cls is b.mpc else mpf_pos(src, n, 'n')
+        ok = type(y) is want_cls and got == src and b.prec == n
+        return ok, '%s.%s(<%s.%s %r>) with %s.prec = %d gives %s.%s %r (expected an object of %s\'s own class with the same value)' % (
+            p['b'], how, p['a'], kind, src, p['b'], n, type(y).__module__, type(y).__name__, got, p['b'])
+    finally:
+        for k, c in cs.items():
+            c.prec = saved[k]
+
+
 # ------------------------------------------------------------------------------ coupling through results: shared stores
 _MUT = (dict, list, set)
 _STORE_METHODS = ('append', 'extend', 'update', 'setdefault', 'add', 'insert', 'pop', 'clear', 'remove')
